@@ -309,195 +309,220 @@ fn harnesses(thorough: bool) -> Vec<Harness> {
     v
 }
 
-fn part_schedules(thorough: bool) -> Result<Acc, String> {
+/// One exploration job, executed in a fresh subprocess so that it starts from a clean process state and visits its
+/// schedules in a deterministic order (a stateful defect makes later executions depend on earlier ones; the
+/// (job, execution number) pair is then the reproducible artefact).
+///   child = None      : only the root execution (all default choices); reports the number of first-level subtrees
+///   child = Some(i)   : sequential depth-first exploration of the i-th first-level subtree
+/// prints one JSON line
+pub fn sched_child(h_idx: usize, bound: usize, child: Option<usize>, stop_at: Option<u64>, cap: u64) -> i32 {
     jsonpath_rust::verif::set_hook(Some(sched::hook));
+    let hs = harnesses(true);
+    let h = &hs[h_idx];
     let ctx = Arc::new(Shared(HistCtx::with_docs(sched_docs())));
-    let bound = if thorough { 3 } else { 2 };
-    let cap: u64 = if thorough { 3_000_000 } else { 150_000 };
-    let hs = harnesses(thorough);
-    let accs: Vec<Result<Acc, String>> = hs
-        .par_iter()
-        .map(|h| {
-            let mut acc = Acc::new();
-            // baseline: every operation alone, outside the scheduler
-            let baseline: Vec<Vec<String>> = h.threads.iter().map(|t| t.iter().map(|op| ctx.0.exec(*op)).collect()).collect();
-            let make = || -> Vec<Box<dyn FnOnce() -> Vec<String> + Send>> {
-                h.threads
-                    .iter()
-                    .map(|t| {
-                        let t = t.clone();
-                        let ctx = ctx.clone();
-                        Box::new(move || t.iter().map(|op| ctx.0.exec(*op)).collect::<Vec<String>>()) as Box<dyn FnOnce() -> Vec<String> + Send>
-                    })
-                    .collect()
-            };
-            for b in 0..=bound {
-                // root execution, then every first-level alternative is an independent subtree (explored in parallel)
-                struct Sub {
-                    stats: ExploreStats,
-                    err: Option<String>,
-                    viol: Option<(String, Vec<(usize, u32, Option<usize>)>)>,
-                    outcomes: std::collections::BTreeSet<String>,
-                }
-                let examine = |sub: &mut Sub, x: &Execution<Vec<String>>, full: &[(usize, u32, Option<usize>)]| {
-                    if let Some(e) = &x.error {
-                        sub.err = Some(e.clone());
+    // baseline: every operation alone, outside the scheduler, before anything else happens in this process
+    let baseline: Vec<Vec<String>> = h.threads.iter().map(|t| t.iter().map(|op| ctx.0.exec(*op)).collect()).collect();
+    let make = || -> Vec<Box<dyn FnOnce() -> Vec<String> + Send>> {
+        h.threads
+            .iter()
+            .map(|t| {
+                let t = t.clone();
+                let ctx = ctx.clone();
+                Box::new(move || t.iter().map(|op| ctx.0.exec(*op)).collect::<Vec<String>>()) as Box<dyn FnOnce() -> Vec<String> + Send>
+            })
+            .collect()
+    };
+    let root = sched::run_once(make(), &[]);
+    let root_full: Vec<(usize, u32, Option<usize>)> = root.trace.iter().map(|p| (p.chosen, p.point_id, p.by)).collect();
+    let mut children: Vec<Vec<(usize, u32, Option<usize>)>> = vec![];
+    if root.error.is_none() {
+        for i in 0..root.trace.len() {
+            let p = &root.trace[i];
+            let cost = root.preemptions_before(i) + if p.running_enabled { 1 } else { 0 };
+            if cost > bound {
+                continue;
+            }
+            for alt in 1..p.enabled.len() {
+                let mut pre = root_full[..i].to_vec();
+                pre.push((alt, p.point_id, p.by));
+                children.push(pre);
+            }
+        }
+    }
+    let mut executions: u64 = 0;
+    let mut max_points = 0usize;
+    let mut outcomes = std::collections::BTreeSet::new();
+    let mut viol: Option<Value> = None;
+    let mut error: Option<String> = root.error.clone();
+    let mut capped = false;
+    let mut examine = |x: &Execution<Vec<String>>, full: &[(usize, u32, Option<usize>)], n: u64| -> bool {
+        let res: Vec<Vec<String>> = x.results.iter().map(|r| r.clone().unwrap_or_else(|| vec!["PANIC".to_string()])).collect();
+        outcomes.insert(format!("{:?}", res));
+        if res != baseline && viol.is_none() {
+            viol = Some(json!({"exec": n, "choices": full.iter().map(|c| c.0).collect::<Vec<_>>(), "observed": format!("{:?}", res), "alone": format!("{:?}", baseline)}));
+        }
+        res != baseline
+    };
+    match child {
+        None => {
+            executions = 1;
+            max_points = root.trace.len();
+            if root.error.is_none() {
+                examine(&root, &root_full, 0);
+            }
+        }
+        Some(ci) => {
+            if ci < children.len() {
+                let mut stats = ExploreStats { executions: 0, max_points: 0, capped: false };
+                let mut n: u64 = 0;
+                let mut stop = false;
+                sched::explore(&make, children[ci].clone(), bound, stop_at.map(|s| s + 1).unwrap_or(cap), &mut stats, &mut |x: &Execution<Vec<String>>, full| {
+                    if stop {
                         return;
                     }
-                    let res: Vec<Vec<String>> = x.results.iter().map(|r| r.clone().unwrap_or_else(|| vec!["PANIC".to_string()])).collect();
-                    sub.outcomes.insert(format!("{:?}", res));
-                    if res != baseline && sub.viol.is_none() {
-                        sub.viol = Some((format!("{:?}", res), full.to_vec()));
+                    if let Some(e) = &x.error {
+                        error = Some(e.clone());
+                        stop = true;
+                        return;
                     }
-                };
-                let root = sched::run_once(make(), &[]);
-                let ppt = root.points_per_thread(h.threads.len());
-                let root_full: Vec<(usize, u32, Option<usize>)> = root.trace.iter().map(|p| (p.chosen, p.point_id, p.by)).collect();
-                let mut top = Sub { stats: ExploreStats { executions: 1, max_points: root.trace.len(), capped: false }, err: None, viol: None, outcomes: Default::default() };
-                examine(&mut top, &root, &root_full);
-                let mut children: Vec<Vec<(usize, u32, Option<usize>)>> = vec![];
-                if root.error.is_none() {
-                    for i in 0..root.trace.len() {
-                        let p = &root.trace[i];
-                        let cost = root.preemptions_before(i) + if p.running_enabled { 1 } else { 0 };
-                        if cost > b {
-                            continue;
-                        }
-                        for alt in 1..p.enabled.len() {
-                            let mut pre = root_full[..i].to_vec();
-                            pre.push((alt, p.point_id, p.by));
-                            children.push(pre);
-                        }
-                    }
-                }
-                let per_child_cap = cap;
-                let subs: Vec<Sub> = children
-                    .into_par_iter()
-                    .map(|pre| {
-                        let mut sub = Sub { stats: ExploreStats { executions: 0, max_points: 0, capped: false }, err: None, viol: None, outcomes: Default::default() };
-                        let mut st = ExploreStats { executions: 0, max_points: 0, capped: false };
-                        let mut tmp: Vec<(Execution<Vec<String>>, Vec<(usize, u32, Option<usize>)>)> = vec![];
-                        sched::explore(&make, pre, b, per_child_cap, &mut st, &mut |x: &Execution<Vec<String>>, full| {
-                            tmp.push((Execution { trace: vec![], results: x.results.clone(), error: x.error.clone() }, full.to_vec()));
-                            if tmp.len() >= 256 {
-                                for (x, f) in tmp.drain(..) {
-                                    examine(&mut sub, &x, &f);
-                                }
-                            }
-                        });
-                        for (x, f) in tmp.drain(..) {
-                            examine(&mut sub, &x, &f);
-                        }
-                        sub.stats = st;
-                        sub
-                    })
-                    .collect();
-                let mut stats = top.stats;
-                let mut err = top.err;
-                let mut viol = top.viol;
-                let mut outcomes = top.outcomes;
-                for sb in subs {
-                    stats.executions += sb.stats.executions;
-                    stats.max_points = stats.max_points.max(sb.stats.max_points);
-                    stats.capped |= sb.stats.capped;
-                    if err.is_none() {
-                        err = sb.err;
-                    }
-                    if viol.is_none() {
-                        viol = sb.viol;
-                    }
-                    outcomes.extend(sb.outcomes);
-                }
-                if let Some(e) = err {
+                    examine(x, full, n);
+                    n += 1;
+                });
+                executions = stats.executions;
+                max_points = stats.max_points;
+                capped = stats.capped && stop_at.is_none();
+            }
+        }
+    }
+    let out = json!({
+        "executions": executions,
+        "max_points": max_points,
+        "capped": capped,
+        "children": children.len(),
+        "points_per_thread": root.points_per_thread(h.threads.len()),
+        "outcomes": outcomes.iter().take(64).collect::<Vec<_>>(),
+        "violation": viol,
+        "error": error,
+    });
+    println!("{}", out);
+    jsonpath_rust::verif::set_hook(None);
+    0
+}
+
+fn run_sched_child(h_idx: usize, bound: usize, child: Option<usize>, stop_at: Option<u64>, cap: u64) -> Result<Value, String> {
+    let exe = std::env::current_exe().map_err(|e| e.to_string())?;
+    let mut cmd = Command::new(exe);
+    cmd.args(["sched", &h_idx.to_string(), &bound.to_string(), &child.map(|c| c.to_string()).unwrap_or_else(|| "root".into()), &stop_at.map(|s| s.to_string()).unwrap_or_else(|| "-".into()), &cap.to_string()]);
+    let out = cmd.output().map_err(|e| e.to_string())?;
+    if !out.status.success() {
+        return Err(format!("schedule exploration subprocess failed: {:?} {}", out.status, String::from_utf8_lossy(&out.stderr).lines().last().unwrap_or("")));
+    }
+    let text = String::from_utf8_lossy(&out.stdout);
+    let line = text.lines().last().unwrap_or("");
+    serde_json::from_str(line).map_err(|e| format!("bad output of schedule subprocess: {} ({})", e, line.chars().take(200).collect::<String>()))
+}
+
+fn part_schedules(thorough: bool) -> Result<Acc, String> {
+    let bound = if thorough { 3 } else { 2 };
+    let cap: u64 = if thorough { 2_000_000 } else { 200_000 };
+    let hs = harnesses(thorough);
+    let mut total = Acc::new();
+    for (hi, h) in hs.iter().enumerate() {
+        let mut found = false;
+        for b in 0..=bound {
+            let root = run_sched_child(hi, b, None, None, cap)?;
+            if let Some(e) = root["error"].as_str() {
+                return Err(format!("schedule exploration failed in harness {:?}: {}", h.name, e));
+            }
+            let nchildren = root["children"].as_u64().unwrap_or(0) as usize;
+            let jobs: Vec<Option<usize>> = std::iter::once(None).chain((0..nchildren).map(Some)).collect();
+            let results: Vec<(Option<usize>, Result<Value, String>)> = jobs.par_iter().map(|c| (*c, if c.is_none() { Ok(root.clone()) } else { run_sched_child(hi, b, *c, None, cap) })).collect();
+            let mut executions = 0u64;
+            let mut max_points = 0u64;
+            let mut capped = false;
+            let mut outcomes = std::collections::BTreeSet::new();
+            let mut viol: Option<(Option<usize>, Value)> = None;
+            for (c, r) in results {
+                let r = r?;
+                if let Some(e) = r["error"].as_str() {
                     return Err(format!("schedule exploration failed in harness {:?}: {}", h.name, e));
                 }
-                if b == bound {
-                    acc.evals += stats.executions;
-                    acc.transitions += stats.executions;
-                    acc.states += outcomes.len() as u64;
-                    acc.nontrivial += stats.executions;
-                    acc.max("max_scheduling_points_per_execution", stats.max_points as u64);
-                    if stats.capped {
-                        acc.bump("harnesses_hitting_the_execution_cap", 1);
-                    }
-                    acc.outcome(|| format!("{}: {} schedules with <= {} preemptions, points per thread {:?}, {} distinct outcome(s){}", h.name, stats.executions, b, ppt, outcomes.len(), if stats.capped { " (CAPPED)" } else { "" }));
-                    acc.sample(|| json!({"harness": h.name, "schedules": stats.executions, "preemption_bound": b, "points_per_thread": ppt, "distinct_outcomes": outcomes.len()}));
+                executions += r["executions"].as_u64().unwrap_or(0);
+                max_points = max_points.max(r["max_points"].as_u64().unwrap_or(0));
+                capped |= r["capped"].as_bool().unwrap_or(false);
+                for o in r["outcomes"].as_array().cloned().unwrap_or_default() {
+                    outcomes.insert(o.as_str().unwrap_or("").to_string());
                 }
-                if let Some((res, full)) = viol {
-                    // replay the failing schedule twice before trusting it
-                    let r1 = sched::run_once(make(), &full);
-                    let r2 = sched::run_once(make(), &full);
-                    if r1.error.is_some() || r1.results != r2.results {
-                        return Err(format!("failing schedule does not replay deterministically in harness {:?}: {:?}", h.name, r1.error));
-                    }
-                    let choices: Vec<usize> = full.iter().map(|c| c.0).collect();
-                    acc.viol(
-                        format!("harness {:?}: under the schedule {:?} (preemption bound {}) the threads observe {} but evaluated alone the operations give {:?}", h.name, choices, b, res, baseline),
-                        json!({"kind": "schedule", "class": "schedule", "harness": h.name, "choices": choices}),
-                    );
-                    break;
+                if viol.is_none() && !r["violation"].is_null() {
+                    viol = Some((c, r["violation"].clone()));
                 }
             }
-            Ok(acc)
-        })
-        .collect();
-    jsonpath_rust::verif::set_hook(None);
-    let mut total = Acc::new();
-    for a in accs {
-        total = total.merge(a?);
+            if b == bound || viol.is_some() {
+                total.evals += executions;
+                total.transitions += executions;
+                total.states += outcomes.len() as u64;
+                total.nontrivial += executions;
+                total.max("max_scheduling_points_per_execution", max_points);
+                if capped {
+                    total.bump("harnesses_hitting_the_execution_cap", 1);
+                }
+                let ppt = root["points_per_thread"].clone();
+                total.outcome(|| format!("{}: {} schedules with <= {} preemptions, points per thread {}, {} distinct outcome(s){}", h.name, executions, b, ppt, outcomes.len(), if capped { " (CAPPED)" } else { "" }));
+                total.sample(|| json!({"harness": h.name, "schedules": executions, "preemption_bound": b, "points_per_thread": ppt, "distinct_outcomes": outcomes.len()}));
+            }
+            if let Some((c, v)) = viol {
+                // reproduce in two more fresh processes before trusting it
+                let n = v["exec"].as_u64().unwrap_or(0);
+                let r1 = run_sched_child(hi, b, c, Some(n), cap)?;
+                let r2 = run_sched_child(hi, b, c, Some(n), cap)?;
+                if r1["violation"].is_null() || r1["violation"] != r2["violation"] {
+                    return Err(format!("failing schedule does not reproduce deterministically in harness {:?}: {} / {} / {}", h.name, v, r1["violation"], r2["violation"]));
+                }
+                total.viol(
+                    format!(
+                        "harness {:?}: with at most {} preemptions, execution #{} of subtree {:?} (schedule {}) makes the threads observe {} but evaluated alone the operations give {}",
+                        h.name, b, n, c, v["choices"], v["observed"], v["alone"]
+                    ),
+                    json!({"kind": "schedule", "class": "schedule", "harness_index": hi, "harness": h.name, "bound": b, "subtree": c, "exec": n, "choices": v["choices"]}),
+                );
+                found = true;
+                break;
+            }
+        }
+        if found {
+            continue;
+        }
     }
     Ok(total)
 }
 
-/// replay one recorded schedule (choice list) twice and compare
+/// replay one recorded schedule: the same subtree job in a fresh process, stopped at the recorded execution, twice
 pub fn replay_schedule(case: &Value, _run: &Run) -> Acc {
     let mut acc = Acc::new();
-    jsonpath_rust::verif::set_hook(Some(sched::hook));
-    let name = case["harness"].as_str().unwrap_or("");
-    let choices: Vec<usize> = case["choices"].as_array().map(|a| a.iter().map(|x| x.as_u64().unwrap_or(0) as usize).collect()).unwrap_or_default();
-    let ctx = Arc::new(Shared(HistCtx::with_docs(sched_docs())));
-    for h in harnesses(true) {
-        if h.name != name {
-            continue;
-        }
-        let baseline: Vec<Vec<String>> = h.threads.iter().map(|t| t.iter().map(|op| ctx.0.exec(*op)).collect()).collect();
-        let make = || -> Vec<Box<dyn FnOnce() -> Vec<String> + Send>> {
-            h.threads
-                .iter()
-                .map(|t| {
-                    let t = t.clone();
-                    let ctx = ctx.clone();
-                    Box::new(move || t.iter().map(|op| ctx.0.exec(*op)).collect::<Vec<String>>()) as Box<dyn FnOnce() -> Vec<String> + Send>
-                })
-                .collect()
-        };
-        // the recorded choices are replayed by index only (point ids are re-derived): first a free run to learn the ids
-        let mut runs = vec![];
-        for _ in 0..2 {
-            // replay choice by choice: extend the prefix with ids from the previous partial run
-            let mut prefix: Vec<(usize, u32, Option<usize>)> = vec![];
-            loop {
-                let x = sched::run_once(make(), &prefix);
-                if prefix.len() >= choices.len() || prefix.len() >= x.trace.len() {
-                    runs.push(x.results.iter().map(|r| r.clone().unwrap_or_default()).collect::<Vec<_>>());
-                    break;
-                }
-                let k = prefix.len();
-                prefix.push((choices[k], x.trace[k].point_id, x.trace[k].by));
+    let hi = case["harness_index"].as_u64().unwrap_or(0) as usize;
+    let b = case["bound"].as_u64().unwrap_or(2) as usize;
+    let c = case["subtree"].as_u64().map(|x| x as usize);
+    let n = case["exec"].as_u64().unwrap_or(0);
+    let r1 = run_sched_child(hi, b, c, Some(n), u64::MAX / 2);
+    let r2 = run_sched_child(hi, b, c, Some(n), u64::MAX / 2);
+    match (r1, r2) {
+        (Ok(a), Ok(b2)) => {
+            println!("harness  : {}", case["harness"]);
+            println!("run 1    : {}", a["violation"]);
+            println!("run 2    : {}", b2["violation"]);
+            if a["violation"] != b2["violation"] {
+                eprintln!("replay is not deterministic");
+                std::process::exit(2);
+            }
+            if !a["violation"].is_null() {
+                acc.viol(format!("harness {}: schedule {} gives {} ; alone {}", case["harness"], a["violation"]["choices"], a["violation"]["observed"], a["violation"]["alone"]), case.clone());
             }
         }
-        println!("harness  : {}", h.name);
-        println!("alone    : {:?}", baseline);
-        println!("schedule : {:?}", runs[0]);
-        if runs[0] != runs[1] {
-            eprintln!("replay is not deterministic");
+        (a, b2) => {
+            eprintln!("replay failed: {:?} {:?}", a.err(), b2.err());
             std::process::exit(2);
         }
-        if runs[0] != baseline {
-            acc.viol(format!("harness {:?}: schedule {:?} gives {:?}, alone {:?}", h.name, choices, runs[0], baseline), case.clone());
-        }
     }
-    jsonpath_rust::verif::set_hook(None);
     acc
 }
 
